@@ -36,7 +36,31 @@ class Elem(Ext):
     def sym_getattr(self, eng, name):
         if name == "attrib":
             return self.attrib
+        if name == "get":
+            return stub(lambda eng, k, d=None: self.attrs.get(k, d))
+        if name == "set":
+            def set_(eng, k, v):
+                self.attrs[k] = v
+            return stub(set_)
+        if name == "tag":
+            return self.tag
+        if name == "append":
+            def append(eng, c):
+                if isinstance(c, Elem):
+                    if c.parent is not None:
+                        c.parent.children = [x for x in c.parent.children if x is not c]
+                    c.parent = self
+                self.children.append(c)
+            return stub(append)
+        if name == "getparent":
+            return stub(lambda eng: self.parent)
         raise Unsupported("element.%s" % name)
+
+    def sym_iter(self, eng):
+        return list(self.children)
+
+    def sym_len(self, eng):
+        return len(self.children)
 
 
 class AttribView(Ext):
@@ -204,7 +228,7 @@ def h_equation_and_containers(eng):
         wide = getattr(eng, "tier", "quick") == "thorough"
         ns, ne = eng.choice(7 if wide else 4), eng.choice(13 if wide else 7)
         syms = [VObj(VClass("Symbol"), {"name": "s%d" % i}) for i in range(ns)]
-        eqs = [VObj(VClass("Equation"), {}) for i in range(ne)]
+        eqs = [A.new("Equation", left=A.ref("e%d" % i), right=A.prim(i)) for i in range(ne)]
         ks = [kid(s, "sym%d" % i) for i, s in enumerate(syms)]
         ke = [kid(e, "eq%d" % i) for i, e in enumerate(eqs)]
         d = VDict([(s.fields["name"], s) for s in syms])
@@ -229,7 +253,7 @@ def h_equation_and_containers(eng):
         eng.prove("tree.declarations_hold_every_class", z3.BoolVal(bool(ok)))
     elif which == "when":
         cond = A.ref("c")
-        body = [VObj(VClass("Equation"), {}) for i in range(1 + eng.choice(2))]
+        body = [A.new("Equation", left=A.ref("b%d" % i), right=A.prim(i)) for i in range(1 + eng.choice(2))]
         kc = kid(cond, "cond")
         kb = [kid(b, "b%d" % i) for i, b in enumerate(body)]
         tree = VObj(VClass("WhenEquation"), {"conditions": VList([cond]), "blocks": VList([VList(body)])})
@@ -293,6 +317,52 @@ def h_declaration_equation(eng):
     ok = ok and equal.children[0].tag == "local" and equal.children[0].attrs.get("name") == "v" and equal.children[1].tag == "local" and equal.children[1].attrs.get("name") == "x"
     eng.prove("decleq.equal_has_the_variable_on_the_left_and_the_value_on_the_right", z3.BoolVal(bool(ok)),
               equal=[getattr(k, "tag", "?") for k in (equal.children if equal is not None else [])])
+
+
+def h_when_equation_in_a_class(eng):
+    """exitSymbol, exitEquation, exitWhenEquation and exitClass composed on one class in the walker's order: a variable assigned inside
+    a when-equation (y, declared without any prefix) and one declared `discrete` (d).  When the class element is built, every
+    component element still says exactly what exitSymbol derived from ITS symbol -- name, variability and the other attributes come
+    from the flat variable's own prefixes, not from where the variable is used."""
+    g, A = setup(eng)
+    from contracts.C10 import PrefixList
+    xml = g.fields["xml"]
+
+    class P(PrefixList):
+        def __init__(self, eng, discrete):
+            self.label, self.appended = "sym", []
+            self.has = {k: (k == "discrete" and discrete) for k in VARIABILITY}
+    sym_cls = eng.module_global(eng.load_module("pymoca.ast"), "Symbol")
+    syms = []
+    for n, disc in (("y", False), ("d", True), ("x", False)):
+        sy = VObj(sym_cls, {"name": n, "prefixes": P(eng, disc), "type": VObj(VClass("ComponentRef"), {"name": "Real"})})
+        for f in ("start", "value", "fixed"):
+            sy.fields[f] = A.prim(None)
+        syms.append(sy)
+    f_ref = eng.find_function(MOD, "XmlGenerator.exitComponentRef")
+    refs = {}
+    for n in ("y", "d", "x", "c"):
+        refs[n] = A.ref(n)
+        eng.call(VBound(f_ref, g), [refs[n]], {})
+    for sy in syms:
+        eng.call(VBound(eng.find_function(MOD, "XmlGenerator.exitSymbol"), g), [sy], {})
+    before = {sy.fields["name"]: dict(ops.getitem(eng, xml, sy).attrs) for sy in syms}
+    body = [A.new("Equation", left=refs["y"], right=refs["x"]), A.new("Equation", left=refs["d"], right=refs["x"])]
+    for e in body:
+        eng.call(VBound(eng.find_function(MOD, "XmlGenerator.exitEquation"), g), [e], {})
+    when = VObj(VClass("WhenEquation"), {"conditions": VList([refs["c"]]), "blocks": VList([VList(body)])})
+    eng.call(VBound(eng.find_function(MOD, "XmlGenerator.exitWhenEquation"), g), [when], {})
+    cls = VObj(VClass("Class"), {"name": "M", "symbols": VDict([(sy.fields["name"], sy) for sy in syms]), "equations": VList([when])})
+    eng.call(VBound(eng.find_function(MOD, "XmlGenerator.exitClass"), g), [cls], {})
+    eng.cover("xml.when_in_class")
+    el = ops.getitem(eng, xml, cls)
+    c = el.children[0] if el.children else None
+    comps = [k for k in (c.children if c is not None else []) if isinstance(k, Elem) and k.tag == "component"]
+    eng.prove("whenclass.one_component_per_variable_in_order", z3.BoolVal([k.attrs.get("name") for k in comps] == ["y", "d", "x"]))
+    after = {k.attrs.get("name"): dict(k.attrs) for k in comps}
+    eng.prove("whenclass.components_say_what_their_own_symbols_say", z3.BoolVal(after == before), before=repr(before), after=repr(after))
+    eng.prove("whenclass.variability_comes_from_the_declared_prefixes", z3.BoolVal(after.get("d", {}).get("variability") == "discrete" and
+                                                                                    after.get("y", {}).get("variability") == before["y"].get("variability")))
 
 
 VARIABILITY = ["discrete", "continuous", "parameter", "constant"]
@@ -369,8 +439,9 @@ def _same_number(txt, v):
 
 HARNESSES = [("XmlGenerator.exitExpression", h_expression), ("XmlGenerator.exitPrimary/exitComponentRef", h_leaves),
              ("XmlGenerator.exitEquation/Function/Class/Tree/WhenEquation/ClassModification", h_equation_and_containers),
+             ("XmlGenerator: a when-equation inside a class (exitSymbol + exitEquation + exitWhenEquation + exitClass)", h_when_equation_in_a_class),
              ("XmlGenerator.exitSymbol", h_symbol), ("XmlGenerator: declaration equation (exitSymbol + exitEquation + exitClass)", h_declaration_equation)]
-EXPECTED_COVER = {"xml.expression", "xml.primary", "xml.ref", "xml.symbol", "xml.equation", "xml.function", "xml.class", "xml.tree",
+EXPECTED_COVER = {"xml.when_in_class", "xml.expression", "xml.primary", "xml.ref", "xml.symbol", "xml.equation", "xml.function", "xml.class", "xml.tree",
                   "xml.when", "xml.classmod", "xml.declaration_equation"}
 BOUNDED = True
 LEVEL = "proof"
